@@ -12,6 +12,13 @@ functions below *interpret* that data, so an edit to the arms / the precedence /
 rewriting rule changes what these functions compute and the theorems in `Props/C18.lean`
 are re-checked against it.
 
+Return paths vs. `process::exit` paths: only a *return* from `run_app` drops `output_type` (whose
+`Drop` waits for the pager); `fatal(..)` / `process::exit(..)` / `delta_unreachable(..)` end the
+process on the spot. Every error exit of `run_app` outside the rendering is extracted as
+(action, code) with action `return` | `fatal` | `exit` (`errExit`), and every call of one of the
+three exit primitives that can be reached after `OutputType::from_mode` is listed in
+`PagerShape.setupPhaseExits` / `renderPhaseExits` (modes `setupAbort` / `renderAbort`).
+
 Not modelled (runtime behaviour, exercised by fault enumeration on the real binary only):
 the kernel's pipe semantics (which `write` fails, EPIPE vs SIGPIPE), `wait`, signal
 dispositions, process spawning, `shell_words` splitting (commands enter pre-split),
@@ -53,7 +60,8 @@ inductive Mode
   | stdin
   /-- stdin is a terminal: usage hint, `error_exit_code`. -/
   | stdinTty
-  /-- `delta a b` with unparsable `--diff-args`: `build_diff_cmd` returns `Err(code)`. -/
+  /-- `delta a b` with unparsable `--diff-args` (`PagerShape.diffArgsErrExit`: on the pinned tree
+      `build_diff_cmd` returns `Err(code)` and `run_app` returns `Ok(code)`). -/
   | diffArgsError
   /-- `delta a b` (kinds `gitDiff`/`diff`) or `delta git …`/`delta rg …`: a child process whose
       stdout is rendered. `spawnOk`: the child could be started; `status`: its exit status
@@ -64,6 +72,13 @@ inductive Mode
   | early
   /-- `--version`/`--help`/`--show-config`: write errors leave `run_app` through `?`. -/
   | oneshot
+  /-- entry `i` of `PagerShape.setupPhaseExits` is executed: a `fatal`/`process::exit` in the
+      statements of `run_app` after `from_mode` (or in a helper they call, e.g. `build_diff_cmd`),
+      the rendering excluded. -/
+  | setupAbort (i : Nat)
+  /-- entry `i` of `PagerShape.renderPhaseExits` is executed while rendering (after `writes`
+      successful writes). -/
+  | renderAbort (i : Nat)
   deriving DecidableEq, Repr
 
 structure Scenario where
@@ -157,6 +172,39 @@ structure Body where
   returns : Bool
   deriving DecidableEq, Repr
 
+/-- An error exit of `run_app` outside the rendering, as extracted: `("return", code)` is
+    `return Ok(code)` (locals are dropped: the pager is waited for); `("fatal", _)` and
+    `("exit", n)` are `process::exit` on the spot (no destructor runs). Always with a message. -/
+def errExit (x : String × String) : Option Body :=
+  if x.1 = "return" then
+    match evalCode x.2 0 with
+    | some c => some ⟨[Event.message], c, false, true⟩
+    | none => none
+  else if x.1 = "fatal" then some ⟨[Event.message], PagerShape.fatalExitCode, false, false⟩
+  else if x.1 = "exit" then
+    match evalCode x.2 0 with
+    | some c => some ⟨[Event.message], c, false, false⟩
+    | none =>
+      match x.2.toInt? with
+      | some c => some ⟨[Event.message], c, false, false⟩
+      | none => none
+  else none
+
+/-- Failing to resolve and failing to start the wrapped command (`spawnOk = false` covers both):
+    the two blocks must leave in the same way. -/
+def spawnFailExit : Option (String × String) :=
+  match PagerShape.spawnFailExits with
+  | [(_, a1, c1), (_, a2, c2)] => if a1 = a2 ∧ c1 = c2 then some (a1, c1) else none
+  | _ => none
+
+/-- An exit primitive listed by the extractor is executed. `delta_unreachable` (kind
+    `unreachable`) guards a state the code declares impossible: the model has no run for it
+    (assumption: those guards are never reached). -/
+def abortBody (kind : String) (pre : List Event) : Option Body :=
+  if kind = "fatal" ∨ kind = "exit" then
+    some ⟨pre ++ [Event.message], PagerShape.fatalExitCode, false, false⟩
+  else none
+
 /-- the "process failed with exit status" message -/
 def failMsg (kind : SubKind) (st : Int) : Bool :=
   PagerShape.failMsgKinds.contains kind.name && decide (PagerShape.failMsgFrom ≤ st)
@@ -173,20 +221,20 @@ def body (s : Scenario) : Option Body :=
       match onError "stdin" f.kind with
       | some r => some ⟨renderEvents s ++ msg r.silent, r.code, r.silent, r.returns⟩
       | none => none
-  | .stdinTty =>
-    match evalCode PagerShape.stdinTtyCode 0 with
-    | some c => some ⟨[Event.message], c, false, true⟩
+  | .stdinTty => errExit PagerShape.stdinTtyExit
+  | .diffArgsError => errExit PagerShape.diffArgsErrExit
+  | .setupAbort i =>
+    match PagerShape.setupPhaseExits[i]? with
+    | some (_, kind, _) => abortBody kind []
     | none => none
-  | .diffArgsError =>
-    if PagerShape.diffCmdErrPassesCode then
-      match evalCode PagerShape.diffArgsErrCode 0 with
-      | some c => some ⟨[Event.message], c, false, true⟩
-      | none => none
-    else none
+  | .renderAbort i =>
+    match PagerShape.renderPhaseExits[i]? with
+    | some (_, kind) => abortBody kind (List.replicate s.writes Event.writeOk)
+    | none => none
   | .sub kind spawnOk status stderrLines =>
     if !spawnOk then
-      match evalCode PagerShape.spawnFailCode 0 with
-      | some c => some ⟨[Event.message], c, false, true⟩
+      match spawnFailExit with
+      | some x => errExit x
       | none => none
     else
       match effectiveFault s with
